@@ -27,7 +27,10 @@ class KeyOrigin:
 
 class AllowedDerivation(DescriptorBase):
     # xpub/<0;1>/* - <0;1> is a set of allowed branches, wildcard * is stored as None
-    def __init__(self, indexes=[[0, 1], None]):
+    def __init__(self, indexes=None):
+        # a list written as a default value would be shared by all instances
+        if indexes is None:
+            indexes = [[0, 1], None]
         # check only one wildcard
         if (
             len(
